@@ -237,7 +237,7 @@ class C05(E2ECheck):
     profile = {
         'types': ['upload', 'upload', 'copy'], 'ntransfers': (1, 2),
         'subs': {'max': 1, 'size': True}, 'body_scripts': True,
-        'max_thr': 12, 'max_chunk': 10,
+        'max_thr': 12, 'max_chunk': 10, 'size_bias': 'multi',
         'fault_sites': ['s3.create_multipart_upload', 's3.upload_part',
                         's3.upload_part_copy',
                         's3.complete_multipart_upload', 'src.read',
